@@ -26,7 +26,8 @@ RULE = ('BFS over operator applications on a heap {a,b,c,r,p} of real Reaction o
         'or when it changed a conversion through an item/set.')
 ASSUMPTIONS = [
     'families (three reactions with a common reactant): glucose, ethanol, methane, oxygen (fractional coefficients), liquid water with '
-    'phase tags; conversions from {0.2, 0.5} (+ one operand with X = 0 in the "inert" pattern); k in {0.5, 2}; mol, wt and mixed bases',
+    'phase tags; conversions from {0.2, 0.5} (+ one operand with X = 0 in the "inert" pattern), and patterns in which EVERY member is built with '
+    'an integer-typed whole-number conversion (Python int / numpy.int64: 1, 1, 0); k in {0.5, 2}; mol, wt and mixed bases',
     'a - b with equal conversions has no representation as a reaction on that reactant (X = 0 with a non-zero net change); such '
     'transitions are cut and counted, not judged',
     'both sides are compared on three feeds (Stream generous, Stream mixed, bare ndarray) and through their extent vectors',
@@ -58,6 +59,15 @@ FAMILIES_T.update({
 })
 FAMILIES_ALL = FAMILIES_T
 XPATTERNS = {'A': (0.2, 0.5, 0.5), 'B': (0.5, 0.2, 0.2), 'inert': (0.5, 0.2, 0.0)}
+# every member constructed with a WHOLE-NUMBER conversion given as an integer object (Python int / numpy int64): a set built only
+# from such members must still hold float conversions (item.X = 0.75, set.X = [...], item *= k must not be truncated)
+XPATTERNS_INT = {'int': (1, 1, 0), 'npint': ('np1', 'np1', 'np0'), 'int2': (1, 0, 1)}
+XPATTERNS_ALL = dict(XPATTERNS, **XPATTERNS_INT)
+
+def _xvalue(x):
+    if x == 'np1': return np.int64(1)
+    if x == 'np0': return np.int64(0)
+    return x
 BASES = {'mol': ('mol', 'mol', 'mol'), 'wt': ('wt', 'wt', 'wt'), 'mixed': ('mol', 'wt', 'mol')}
 BASES_T = dict(BASES, mixed2=('wt', 'mol', 'wt'))
 KS = (0.5, 2.0)
@@ -120,7 +130,7 @@ class Arith(System):
     def depth(self, tier): return 2
     def describe(self, tier):
         q = tier == 'quick'
-        return dict(families={k: v[2] for k, v in (FAMILIES if q else FAMILIES_T).items()}, X_patterns=XPATTERNS,
+        return dict(families={k: v[2] for k, v in (FAMILIES if q else FAMILIES_T).items()}, X_patterns=XPATTERNS_ALL,
                     bases=list(BASES if q else BASES_T), k=list(KS if q else KS_T))
 
     ks = KS
@@ -140,6 +150,11 @@ class Arith(System):
                             devs = [('B', 'mol'), ('inert', 'mol'), ('A', 'wt'), ('A', 'mixed')]
                             if (xp, bs) != devs[(fi + seed) % 4]: continue
                     cfgs.append((fam, xp, bs))
+        # integer-typed conversions: quick two families (one Python int, one numpy int64), thorough every family x pattern x basis
+        if tier == 'quick':
+            cfgs += [(fams[seed % len(fams)], 'int', 'mol'), (fams[(seed + 4) % len(fams)], 'npint', 'mol')]
+        else:
+            cfgs += [(fam, xp, bs) for fam in fams for xp in XPATTERNS_INT for bs in ('mol', 'wt', 'mixed')]
         k = seed % len(cfgs)
         return cfgs[k:] + cfgs[:k]
 
@@ -154,7 +169,8 @@ class Arith(System):
         st.tag = tg
         st.obj = {}
         st.val = {}
-        for nm, mname, X, basis in zip('abc', names, XPATTERNS[xp], BASES_T[bs]):
+        for nm, mname, X, basis in zip('abc', names, XPATTERNS_ALL[xp], BASES_T[bs]):
+            X = _xvalue(X)                       # handed to Reaction(...) exactly as it is (int / numpy.int64 / float)
             ri = MENU_INDEX[mname]
             st.obj[nm] = rc.make_reaction(ri, reactant, X, 'str', tg, 'mol' if basis == 'mol' else 'wt-set')
             ref = rc.RefRxn(ri, reactant, X, tg)
@@ -647,7 +663,7 @@ class Arith3(Arith):
     def configs(self, tier, seed):
         self.ks = KS
         if tier == 'quick': return [('glucose', 'A', 'mol')]
-        cfgs = [(fam, xp, bs) for fam in FAMILIES_T for xp in XPATTERNS for bs in ('mol', 'mixed', 'wt')]
+        cfgs = [(fam, xp, bs) for fam in FAMILIES_T for xp in XPATTERNS_ALL for bs in ('mol', 'mixed', 'wt')]
         k = seed % len(cfgs)
         return cfgs[k:] + cfgs[:k]
     def actions(self, st):
@@ -663,7 +679,7 @@ class ArithFull3(Arith):
         self.ks = KS
         if tier == 'quick': return [('glucose', 'A', 'mol')]
         return ([(fam, 'A', 'mol') for fam in FAMILIES_T] +
-                [('oxygen', 'A', 'mixed'), ('methane2', 'inert', 'wt'), ('water', 'B', 'mixed2'), ('ethanol-t', 'inert', 'wt'), ('glucose2', 'B', 'mixed')])
+                [('glucose', 'int', 'mol'), ('water', 'npint', 'mol'), ('oxygen', 'A', 'mixed'), ('methane2', 'inert', 'wt'), ('water', 'B', 'mixed2'), ('ethanol-t', 'inert', 'wt'), ('glucose2', 'B', 'mixed')])
 
 
 @rc.guard_build
